@@ -16,7 +16,7 @@ func init() {
 		Prop:   "C12",
 		Run:    run,
 		Replay: replay,
-		Rule: "E1 over grouping structures with a differential oracle: one abstract structure (grouping body from an 8-item menu, optional nested uses (at the top level of the grouping or inside a container of its body), definition site: same module / imported module / submodule, use site: module top / container / list / case / another grouping / own augment, one refinement from a menu of 9 incl. a nested target path, an augment inside the uses, when / if-feature / status on the uses, top-level augments of the own and of an imported module, deliberate sibling clashes and inapplicable refinements) is rendered twice: with grouping/uses/refine/augment, and inlined (bodies copied in place, refinements applied textually, when/if-feature/status copied onto every introduced node). " +
+		Rule: "E1 over grouping structures with a differential oracle: one abstract structure (grouping body from an 8-item menu, optional nested uses (at the top level of the grouping or inside a container of its body), definition site: same module / imported module / submodule, use site: module top / container / list / case / another grouping / own augment, one refinement from a menu of 9 incl. a nested target path, an augment inside the uses, when / if-feature / status on the uses, top-level augments of the own and of an imported module, deliberate sibling clashes and inapplicable refinements; plus 7 hand-written pairs with groupings defined in nested and sibling scopes) is rendered twice: with grouping/uses/refine/augment, and inlined (bodies copied in place, refinements applied textually, when/if-feature/status copied onto every introduced node). " +
 			"Both are compiled by the real compiler and the canonical dumps must be equal; for nodes introduced by a uses/augment carrying a when, the run-as-parent flag is checked separately and excluded from the comparison; for cross-module augments the introduced subtree is compared after substituting the augmenting module's name and namespace. Clashes and inapplicable refinements must be errors. Non-trivial = every structure (each contains a uses or an augment).",
 		Bound: map[string]string{
 			"quick":    "single-item bodies x 2 nestings x 3 definition sites x 6 use sites x one modification at a time (13)",
@@ -494,7 +494,83 @@ func check(s Structure) (vs []engine.Violation, outcome string) {
 	return vs, "compared"
 }
 
+// ---------------------------------------------------------------- scoped definitions
+
+// scopePair: groupings defined in nested scopes (RFC 6020 5.5): the uses text and
+// the same module written in place.
+type scopePair struct {
+	Name   string            `json:"name"`
+	Uses   map[string]string `json:"uses"`
+	Inline map[string]string `json:"inline"`
+}
+
+func scopePairs() []scopePair {
+	a := func(body string) string { return "module a { namespace \"urn:a\"; prefix a; " + body + " }" }
+	ab := func(body string) string { return "module a { namespace \"urn:a\"; prefix a; import b { prefix b; } " + body + " }" }
+	b := func(body string) string { return "module b { namespace \"urn:b\"; prefix b; " + body + " }" }
+	one := func(name, u, i string) scopePair {
+		return scopePair{name, map[string]string{"a": a(u)}, map[string]string{"a": a(i)}}
+	}
+	return []scopePair{
+		one("sibling-scopes-same-name",
+			"container x { grouping g { leaf l { type string; } } uses g; } container y { grouping g { leaf m { type int8; } } uses g; }",
+			"container x { leaf l { type string; } } container y { leaf m { type int8; } }"),
+		one("sibling-scopes-same-name-in-list-and-case",
+			"list x { key k; leaf k { type string; } grouping g { leaf l { type string; } } uses g; } choice ch { case ca { container y { grouping g { leaf m { type int8; } } uses g; } } }",
+			"list x { key k; leaf k { type string; } leaf l { type string; } } choice ch { case ca { container y { leaf m { type int8; } } } }"),
+		one("definition-inside-grouping",
+			"grouping outer { grouping inner { leaf i { type string; } } container c { uses inner; } } container t { uses outer; }",
+			"container t { container c { leaf i { type string; } } }"),
+		one("same-name-inside-two-groupings",
+			"grouping o1 { grouping in { leaf i { type string; } } container c1 { uses in; } } grouping o2 { grouping in { leaf j { type int8; } } container c2 { uses in; } } container t { uses o1; uses o2; }",
+			"container t { container c1 { leaf i { type string; } } container c2 { leaf j { type int8; } } }"),
+		one("inner-scope-definition-used-deeper",
+			"container x { grouping g { leaf l { type string; } } container deep { container deeper { uses g; } } }",
+			"container x { container deep { container deeper { leaf l { type string; } } } }"),
+		{"imported-grouping-with-inner-definition",
+			map[string]string{"a": ab("container t { uses b:outer; }"), "b": b("grouping outer { grouping inner { leaf i { type string; } } container c { uses inner; } }")},
+			map[string]string{"a": ab("container t { container c { leaf i { type string; } } }"), "b": b("")}},
+		{"same-name-in-module-and-import",
+			map[string]string{"a": ab("grouping g { leaf l { type string; } } container t { uses g; container u { uses b:g; } }"), "b": b("grouping g { leaf m { type int8; } }")},
+			map[string]string{"a": ab("container t { leaf l { type string; } container u { leaf m { type int8; } } }"), "b": b("")}},
+	}
+}
+
+func checkScope(sp scopePair) (vs []engine.Violation, outcome string) {
+	mk := func(key, detail string) {
+		vs = append(vs, engine.Violation{Key: key, Witness: sp.Name, Detail: detail + "\n--- uses variant: " + fmt.Sprint(sp.Uses) + "\n--- inline variant: " + fmt.Sprint(sp.Inline), Harness: "scope", Replay: engine.JSON(sp)})
+	}
+	ru, ri := gen.Compile(sp.Uses, gen.Options{}), gen.Compile(sp.Inline, gen.Options{})
+	switch {
+	case !ri.OK():
+		mk("harness-inline-variant-rejected:"+sp.Name, fmt.Sprint(ri.Err, ri.Panic))
+		return vs, "bad"
+	case !ru.OK():
+		mk("scoped-grouping:uses-variant-rejected:"+sp.Name, fmt.Sprint(ru.Verdict(), " ", ru.Err, ru.Panic))
+		return vs, "uses-rejected"
+	}
+	du, di := stripTypeSpace(gen.DumpString(ru.MS, gen.DumpOpts{})), stripTypeSpace(gen.DumpString(ri.MS, gen.DumpOpts{}))
+	if du != di {
+		mk("scoped-grouping:expansion-differs-from-inline:"+sp.Name, gen.FirstDiff(du, di))
+	}
+	return vs, "compared"
+}
+
 func run(c *engine.Ctx) {
+	for i, sp := range scopePairs() {
+		id := fmt.Sprintf("scope:%d:%s", i, sp.Name)
+		if !c.Owns(id) || !c.Case(id) {
+			continue
+		}
+		c.Add("states", 1)
+		c.Add("transitions", 2)
+		c.Nontrivial()
+		vs, outcome := checkScope(sp)
+		c.Outcome("scope:" + outcome)
+		for _, v := range vs {
+			c.Report(v)
+		}
+	}
 	for i, a := range augStructs() {
 		id := fmt.Sprintf("aug:%d:%s", i, a)
 		if !c.Owns(id) {
@@ -585,6 +661,14 @@ func run(c *engine.Ctx) {
 }
 
 func replay(c *engine.Ctx, sub string, raw json.RawMessage) []engine.Violation {
+	if sub == "scope" {
+		var sp scopePair
+		if json.Unmarshal(raw, &sp) != nil {
+			return []engine.Violation{{Key: "harness-bad-replay-file"}}
+		}
+		vs, _ := checkScope(sp)
+		return vs
+	}
 	if sub == "augment" {
 		var a AugStruct
 		if json.Unmarshal(raw, &a) != nil {
